@@ -4,8 +4,8 @@ import sys; sys.path.insert(0, '/verif')
 from engine import tlc
 spec = sys.argv[1]
 for c in sys.argv[2:]:
-    r = tlc.run(spec, c, workers=8, timeout=1800)
+    r = tlc.run(spec, c, workers=8, timeout=int(__import__("os").environ.get("TLCQ_TIMEOUT","180")))
     print(c, "ok=%s" % r.ok, "distinct=%d" % r.distinct_states, "exported=%d" % len(r.records), "%.1fs" % r.wall_s, r.violated, [e[:80] for e in r.errors[:2]])
     if not r.ok and not r.violated:
         i = r.stdout.find("rror")
-        print(r.stdout[max(0, i - 300):i + 900])
+        print(r.stdout[max(0, i - 100):i + 500])
